@@ -60,10 +60,11 @@ def checksum_for(ipv6, src, dst, proto, segment_with_zero_field):
     return (~s) & 0xFFFF
 
 
-def ip_header(ipv6, src, dst, proto, seglen, ident=0, ttl=64):
+def ip_header(ipv6, src, dst, proto, seglen, ident=0, ttl=64, options=b""):
     if ipv6:
         return _cat([b"\x60\x00\x00\x00", u16(seglen), bytes([proto, ttl]), src, dst])
-    hdr = _cat([b"\x45\x00", u16(20 + seglen), u16(ident), b"\x40\x00", bytes([ttl, proto]), b"\x00\x00", src, dst])
+    assert len(options) % 4 == 0
+    hdr = _cat([bytes([0x45 + len(options) // 4, 0]), u16(20 + len(options) + seglen), u16(ident), b"\x40\x00", bytes([ttl, proto]), b"\x00\x00", src, dst, options])
     if isinstance(hdr, (bytes, bytearray)):
         c = (~rfc1071_sum(hdr)) & 0xFFFF
         hdr = hdr[:10] + u16(c) + hdr[12:]
